@@ -54,7 +54,7 @@ def opsExtra : Handler := fun st toks =>
   | ["probe", d] => do
     let (_, sl) ← b? d
     let mo := probeStr (Bitmap.elems sl.m) (fun a z => Bitmap.containsRange sl.m (.incl a) (.incl z)) (Bitmap.contains sl.m)
-      (fun a z => Bitmap.rangeCardinality sl.m (.incl a) (.incl z)) (Bitmap.rank sl.m) (Bitmap.select sl.m)
+      (fun a z => Bitmap.rangeCardinality sl.m (.incl a) (.incl z)) (Bitmap.rankMirror sl.m) (Bitmap.select sl.m)
     let so := probeStr sl.s (fun a z => Spec.containsRange u32Max sl.s (.incl a) (.incl z)) (Spec.contains sl.s)
       (fun a z => Spec.rangeCardinality u32Max sl.s (.incl a) (.incl z)) (Spec.rank sl.s) (Spec.select sl.s)
     pure (st, specMark mo so)
@@ -70,14 +70,14 @@ def opsExtra : Handler := fun st toks =>
   | ["default", d] => (parseSlot 'b' d).map fun i => (st.setB i ⟨[], []⟩, "ok")
   | "extend_ref" :: d :: vs => do
     let (i, sl) ← b? d; let vs ← parseNats vs
-    pure (st.setB i ⟨Bitmap.extend sl.m vs, Spec.extend sl.s vs⟩, "ok")
+    pure (st.setB i ⟨Bitmap.extendMirror sl.m vs, Spec.extend sl.s vs⟩, "ok")
   | "from_iter_ref" :: d :: vs => do
     let i ← parseSlot 'b' d; let vs ← parseNats vs
-    pure (st.setB i ⟨Bitmap.fromIter vs, Spec.extend [] vs⟩, "ok")
+    pure (st.setB i ⟨Bitmap.fromIterMirror vs, Spec.extend [] vs⟩, "ok")
   | "from_arr" :: d :: vs => do
     let i ← parseSlot 'b' d; let vs ← parseNats vs
     if vs.length > 4 then none else
-    pure (st.setB i ⟨Bitmap.fromIter vs, Spec.extend [] vs⟩, "ok")
+    pure (st.setB i ⟨Bitmap.fromIterMirror vs, Spec.extend [] vs⟩, "ok")
   | ["for_ref", d] => do
     let (_, sl) ← b? d
     let els := Bitmap.elems sl.m
